@@ -41,6 +41,7 @@ import (
 // operation vocabulary as layer K: a.blockstart, hook.lock.begin, tx.ethblock, tx.*, a.end.
 type appStream struct {
 	forceExpiring bool // signRelayerTx: sign as the proposer with timeout height = last committed height
+	forcePlain    bool // signRelayerTx: sign as the proposer, no defect of any kind
 	deadHalts int // consecutive blocks that failed without a scripted engine fault
 	*worldStream
 	sim     *appsim.Sim
@@ -129,7 +130,9 @@ func (s *appStream) boot(r *tr.Rng) {
 		p.UnlockDuration, p.ExitingDuration, p.HalvingInterval = unlockD, exitD, halving
 	}
 	if strings.HasPrefix(s.profile, "app-proposal") {
-		cfg.MempoolMaxTxs = 10 // the node's default application mempool: the real PrepareProposal handler selects from it
+		// the node's default application mempool (10 transactions), or an operator's larger one: the real PrepareProposal
+		// handler selects from it
+		cfg.MempoolMaxTxs = tr.Pick(r, 10, 10, 64)
 	}
 	if strings.HasPrefix(s.profile, "app-export") && r.Chance(35) {
 		// a young bitcoin side chain: voted hashes reach down to height 0 (an export lists tip+1 hashes)
@@ -351,7 +354,11 @@ func (s *appStream) signRelayerTx(r *tr.Rng, o *tr.Op, height int64, seqUsed map
 		// valid in every respect for the mempool of the last committed height, expired for the block being proposed
 		priv, signerAddr, cls = prop.Acc, prop.Addr, "/expires-at-proposal"
 	}
+	if s.forcePlain {
+		priv, signerAddr, cls = prop.Acc, prop.Addr, "/plain"
+	}
 	switch c := r.Intn(100); {
+	case s.forcePlain:
 	case s.forceExpiring:
 		timeout = uint64(height - 1)
 	case c < pick(guardy, 10, 2):
@@ -373,7 +380,7 @@ func (s *appStream) signRelayerTx(r *tr.Rng, o *tr.Op, height int64, seqUsed map
 	addr := sdk.AccAddress(priv.PubKey().Address())
 	_, base, hasAcc := s.sim.Account(addr)
 	seq := base + seqUsed[signerAddr]
-	if r.Chance(pick(guardy, 8, 2)) && !s.forceExpiring {
+	if r.Chance(pick(guardy, 8, 2)) && !s.forceExpiring && !s.forcePlain {
 		seq, seqok, cls = seq+1+uint64(r.Intn(2)), false, cls+"/bad-sequence"
 	}
 	if !hasAcc {
@@ -660,7 +667,7 @@ func (s *appStream) genBlock(r *tr.Rng) {
 		case 3:
 			ethCls, m.Requests = "/truncated-request", [][]byte{append([]byte{byte(1 + r.Intn(14))}, r.Bytes(r.Intn(50))...)}
 		case 4:
-			ethCls, m.BlobGasUsed = "/blob-gas", 7
+			ethCls, m.BlobGasUsed = "/blob-gas", uint64(tr.Pick(r, 1, 1, 7))
 		case 5:
 			ethCls, m.BeaconRoot = "/wrong-beacon", flip(m.BeaconRoot)
 		case 6:
@@ -1045,6 +1052,32 @@ func (s *appStream) realPrepare(r *tr.Rng, ptxs []*pendingTx, script *appsim.Blo
 			}
 		}
 	}
+	// a mempool holding more transactions than a block may carry (16 including the block message)
+	flood := 0
+	if v := s.rel.view(); s.cfg.MempoolMaxTxs > 16 && s.members[v.rel.Proposer] != nil && r.Chance(30) {
+		var src *tr.Op
+		byProp := uint64(expiring)
+		for _, p := range ptxs {
+			if p.antePass && p.signer == v.rel.Proposer {
+				byProp++
+				if src == nil && p.op.Kind != "tx.raw" && p.op.Kind != "tx.generic" {
+					src = p.op
+				}
+			}
+		}
+		if src != nil && expiring == 0 {
+			s.forcePlain = true
+			for k := 0; k < 14+r.Intn(8); k++ {
+				if p2 := s.signRelayerTx(r, src, height, map[string]uint64{v.rel.Proposer: byProp}); p2 != nil {
+					if code, _ := sim.CheckTx(p2.raw); code == 0 {
+						flood++
+						byProp++
+					}
+				}
+			}
+			s.forcePlain = false
+		}
+	}
 	sim.Engine.ClearFaults()
 	sim.Engine.SetNext(script)
 	type res struct {
@@ -1061,8 +1094,8 @@ func (s *appStream) realPrepare(r *tr.Rng, ptxs []*pendingTx, script *appsim.Blo
 		txs, err := sim.Prepare(sim.ProposerAddr(0), nil)
 		done <- res{txs, err}
 	}()
-	po := tr.NewOp(fmt.Sprintf("prepare/offered=%d/admitted=%d/expiring=%d", offered, admitted, expiring), "a.prepare", "height", height, "offered", offered,
-		"admitted", admitted, "expiring", expiring)
+	po := tr.NewOp(fmt.Sprintf("prepare/offered=%d/admitted=%d/expiring=%d/flood=%d", offered, admitted, expiring, flood), "a.prepare", "height", height, "offered", offered,
+		"admitted", admitted+flood, "expiring", expiring)
 	var out res
 	select {
 	case out = <-done:
